@@ -51,6 +51,9 @@ __CPROVER_assigns()
 
 /* ghost probes of the buffers_ table */
 size_t g_b; bool g_probe, g_assign, g_single_alloc, g_saw_nonnull; size_t g_probe_cap, g_assign_cap, g_single_cap; int g_probe_n, g_assign_n;
+/* publication: `while (!buffers_[b].load(acquire)) {}` returns only after an acquire load saw bucket b's buffer (termination: progress, not decided) */
+size_t g_w; bool g_waited; bool nondet_bool(void);
+static void G_wait_published(size_t bucket) { __CPROVER_assert(bucket < 64, "buffers_ index inside the table"); if (bucket == g_w) g_waited = 1; }
 static bool G_is_null(size_t bucket) { __CPROVER_assert(bucket < 64, "buffers_ index inside the table"); return nondet_bool(); }
 static bool G_size_probe(size_t bucket, size_t cap) { __CPROVER_assert(bucket < 64, "buffers_ index inside the table"); if (bucket == g_b) { g_probe = 1; g_probe_cap = cap; g_probe_n++; } return nondet_bool(); }
 static bool G_assign(size_t bucket, size_t cap) { __CPROVER_assert(bucket < 64, "buffers_ index inside the table"); if (bucket == g_b) { g_assign = 1; g_assign_cap = cap; g_assign_n++; } return nondet_bool(); }
@@ -65,7 +68,9 @@ __CPROVER_requires(g_b >= 1 && g_b <= 60 && g_b + self->firstBucketShift_ <= 60 
 /* (the single-index path sizes the new bucket as twice the current one: exact for b >= 1, generous by 2x when coming from bucket 0) */
 __CPROVER_ensures(g_single_alloc ==> (index == TRIG(self, g_b - 1) && g_single_cap >= CAP_(self, g_b) && g_single_cap <= 2 * CAP_(self, g_b)))
 __CPROVER_ensures((index == TRIG(self, g_b - 1)) ==> (g_single_alloc || g_saw_nonnull))
-__CPROVER_assigns(g_single_alloc, g_single_cap, g_saw_nonnull)
+/* no element is lost: the caller constructs its element in bucket binfo.bucket right after this returns, so that bucket must have been seen published */
+__CPROVER_ensures(g_w == binfo.bucket ==> g_waited)
+__CPROVER_assigns(g_single_alloc, g_single_cap, g_saw_nonnull, g_waited)
 #include "CV_allocAsNecessary_one.body.inc"
 
 /* range growth (grow_by, grow_by_generator, grow_to_at_least, insert): [index, index + rangeLen) */
@@ -78,7 +83,9 @@ __CPROVER_requires(g_b >= 1 && g_b <= 60 && g_b + self->firstBucketShift_ <= 60 
 __CPROVER_ensures(g_assign == (index <= TRIG(self, g_b - 1) && TRIG(self, g_b - 1) < index + (size_t)rangeLen))
 /* the sizing pass and the assignment pass agree, visit a bucket at most once, and use the bucket's capacity */
 __CPROVER_ensures(g_probe == g_assign && g_probe_n <= 1 && g_assign_n <= 1 && (g_assign ==> (g_assign_cap == CAP_(self, g_b) && g_probe_cap == CAP_(self, g_b))))
-__CPROVER_assigns(g_probe, g_assign, g_probe_cap, g_assign_cap, g_probe_n, g_assign_n)
+/* every bucket that holds one of the reserved indices [index, index + rangeLen) has been seen published before the elements are constructed */
+__CPROVER_ensures((g_w >= binfo.bucket && g_w <= bend.bucket && (g_w < bend.bucket || bend.bucketIndex > 0)) ==> g_waited)
+__CPROVER_assigns(g_probe, g_assign, g_probe_cap, g_assign_cap, g_probe_n, g_assign_n, g_waited)
 #include "CV_allocAsNecessary_range.body.inc"
 
 #ifdef VERIF_CBMC
@@ -87,8 +94,8 @@ void h_AX_log2(void) { size_t v; AX_log2(v); }
 void h_CV_bucketAndSubIndex(void) { CV v; mkcv(&v); size_t i; CV_bucketAndSubIndex(&v, i); }
 void h_CV_allocCheckIndex(void) { size_t c; CV_allocCheckIndex(c); }
 void h_CV_allocAsNecessary_one(void) { CV v; mkcv(&v); size_t i = nondet_size_t(); __CPROVER_assume(i < MAXIDX); BucketInfo b = CV_bucketAndSubIndex(&v, i);
-  g_b = nondet_size_t(); g_single_alloc = 0; g_saw_nonnull = 0; CV_allocAsNecessary_one(&v, b, i); }
+  g_b = nondet_size_t(); g_w = nondet_size_t(); g_waited = 0; g_single_alloc = 0; g_saw_nonnull = 0; CV_allocAsNecessary_one(&v, b, i); }
 void h_CV_allocAsNecessary_range(void) { CV v; mkcv(&v); size_t i = nondet_size_t(); ssize_t n = (ssize_t)nondet_size_t(); __CPROVER_assume(i < MAXIDX && n >= 1 && (size_t)n < MAXIDX && i + (size_t)n < MAXIDX);
   BucketInfo b = CV_bucketAndSubIndex(&v, i); BucketInfo e = CV_bucketAndSubIndex(&v, i + (size_t)n);
-  g_b = nondet_size_t(); g_probe = 0; g_assign = 0; g_probe_n = 0; g_assign_n = 0; CV_allocAsNecessary_range(&v, b, n, e, i); }
+  g_b = nondet_size_t(); g_w = nondet_size_t(); g_waited = 0; g_probe = 0; g_assign = 0; g_probe_n = 0; g_assign_n = 0; CV_allocAsNecessary_range(&v, b, n, e, i); }
 #endif
